@@ -50,7 +50,7 @@ def body(check):
             check.undecided("RK-ORDER", q, "UNCLASSIFIED: explicit integrator class without a nominal order in the checker's table", c.loc())
             continue
         try:
-            ai, outs = run_step(proj, c)
+            ai, outs = run_step(proj, c, rhs_owned=True)      # "for every right-hand side": buffers may be re-used
         except AnalysisError as e:
             check.undecided("AFF", q, "abstract interpretation failed: %s" % e, loc)
             continue
